@@ -30,7 +30,7 @@ ASSUMPTIONS = ["any injective map from time steps to recorded engine columns (th
                "drives which step is not an alarm",
                "implied normals are compared within the rounding bound of the cumulative sum: 16*eps*(T*max|z| + max|X|/(sigma*sqrt(dt)))",
                "the distributional clauses of the property are not decided by this check (partial claim)"]
-PROBES = ["implied_normals", "noise_stall", "sigma_zero_skeleton", "merton_zero_intensity", "kou_zero_intensity", "instrument_engine",
+PROBES = ["qe_exponential_branch_atom", "implied_normals", "noise_stall", "sigma_zero_skeleton", "merton_zero_intensity", "kou_zero_intensity", "instrument_engine",
           "init_nondefault", "drift_nonzero", "float64", "n_steps_1", "n_steps_2", "horizon_not_multiple_of_dt", "live_instrument", "simulation_aborted_by_sigma_fn", "compensated_drift_between_jumps"]
 FNS = ["generate_brownian", "generate_geometric_brownian", "generate_merton_jump", "generate_kou_jump", "MertonJumpStock", "KouJumpStock"]
 
@@ -38,7 +38,16 @@ FNS = ["generate_brownian", "generate_geometric_brownian", "generate_merton_jump
 def generate(rng):
     ops = []
     for _ in range(rng.randint(2, 6)):
-        k = rng.wchoice([("engine", 6), ("skeleton", 2)])
+        k = rng.wchoice([("engine", 6), ("skeleton", 2), ("atom", 1)])
+        if k == "atom":
+            # the support of one quadratic-exponential step (round-7 mutant C10-m): where psi = s^2/m^2 of the first step is far
+            # above the switching level the scheme's law has an atom at zero of mass p = (psi-1)/(psi+1); all paths share the
+            # first step's psi, which is a closed form of the arguments
+            ops.append({"op": "atom", "fn": rng.choice(["generate_cir", "CIRRate", "generate_heston", "HestonStock"]),
+                        "kappa": rng.choice([0.5, 1.0, 2.0]), "theta": rng.choice([0.01, 0.04]), "sigma": rng.choice([2.0, 3.0]),
+                        "v0": rng.choice([1e-3, 5e-4, 2e-3]), "dt": rng.choice([1 / 250, 1 / 365, 1 / 52]), "n_paths": 96,
+                        "n_steps": rng.choice([2, 3, 5]), "dtype": rng.choice([None, "float32", "float64"]), "torch_seed": rng.seed31()})
+            continue
         if k == "engine":
             fn = rng.choice(FNS)
             op = {"op": "engine", "fn": fn, "sigma": rng.choice([0.05, 0.2, 0.2, 0.5, 1.0]), "mu": rng.choice([0.0, 0.0, 0.1, -0.3, 1.0]),
@@ -130,6 +139,42 @@ def _execute(program, stats, hist):
         eps = torch.finfo(wd).eps
         n, T, dtv = op["n_paths"], op["n_steps"], op["dt"]
         torch.manual_seed(op["torch_seed"])
+        if name == "atom":
+            kappa, theta, sg, v0 = op["kappa"], op["theta"], op["sigma"], op["v0"]
+            try:
+                if fn == "generate_cir":
+                    var = st.generate_cir(n, T, init_state=(v0,), kappa=kappa, theta=theta, sigma=sg, dt=dtv, dtype=dtype)
+                elif fn == "generate_heston":
+                    var = st.generate_heston(n, T, init_state=(1.0, v0), kappa=kappa, theta=theta, sigma=sg, rho=-0.7, dt=dtv, dtype=dtype).variance
+                elif fn == "CIRRate":
+                    inst = pfi.CIRRate(kappa=kappa, theta=theta, sigma=sg, dt=dtv, dtype=dtype)
+                    inst.simulate(n_paths=n, time_horizon=(T - 1) * dtv, init_state=(v0,))
+                    var = inst.spot
+                else:
+                    inst = pfi.HestonStock(kappa=kappa, theta=theta, sigma=sg, rho=-0.7, dt=dtv, dtype=dtype)
+                    inst.simulate(n_paths=n, time_horizon=(T - 1) * dtv, init_state=(1.0, v0))
+                    var = inst.variance
+            except Exception as e:
+                raise Violation(ID, "op_raised", "%s[atom]:%s" % (fn, type(e).__name__), {"error": repr(e)[:300], "op": op}, seq)
+            v0w = float(torch.tensor(v0, dtype=torch.float64).to(wd).double())
+            ex = math.exp(-kappa * dtv)
+            m = theta + (v0w - theta) * ex
+            s2 = v0w * sg ** 2 * ex * (1 - ex) / kappa + theta * sg ** 2 * (1 - ex) ** 2 / (2 * kappa)
+            psi = s2 / (m * m)
+            p_atom = (psi - 1) / (psi + 1)
+            if var.dim() == 2 and var.shape[0] >= 64 and var.shape[1] >= 2 and p_atom >= 0.5:
+                stats.probe("qe_exponential_branch_atom")
+                stats.checks += 1
+                col = var[:, 1].double()
+                zeros = int((col == 0).sum())
+                # P(no path at zero) = (1 - p)^n <= 2^-64: not a statistic with an error bar but the support of the scheme's law
+                if zeros == 0 or not bool((col >= 0).all()) or not bool(torch.isfinite(col).all()):
+                    raise Violation(ID, "qe_atom_at_zero", fn, {"psi": psi, "atom_mass": p_atom, "n_paths": int(var.shape[0]), "paths_at_zero": zeros,
+                                                               "first_step": col[:8], "op": op}, seq)
+                stats.hazard((fn, "atom", kappa, theta, sg, v0, dtv, str(wd)))
+            hist.add(op=fn, out=thash(var))
+            stats.state((fn, str(wd), "atom"), name)
+            continue
         if name == "engine":
             sigma, mu = op["sigma"], op["mu"]
             lam = float(op.get("lam", 0.0))
